@@ -420,9 +420,26 @@ def compare_outcomes(I, mode, got, want, check_span=True, eq=None):
     if got.kind != want.kind:
         return (mode, False, "code %s, spec %s" % (fmt_outcome(got), fmt_outcome(want)), None)
     if got.kind == "raise":
+        if want.value == "ANY-EXC":
+            return (mode, True, "", None)
+        if want.value == "ANY":  # the property says 'rejected' / 'raises' without naming the error: any praatio error
+            ok = got.value in praatio_error_names(I.idx)
+            return (mode, ok, "code raises %s, which is not a praatio error" % got.value, None)
         return (mode, got.value == want.value, "code raises %s, spec raises %s" % (got.value, want.value), None)
     diff = (eq or (lambda I, g, w: tier_equal(I, g, w, check_span)))(I, got.value, want.value)
     return (mode, diff is None, diff or "", None)
+
+
+_PE = {}
+
+
+def praatio_error_names(idx):
+    if id(idx) not in _PE:
+        try:
+            _PE[id(idx)] = set(idx.module("utilities.errors").classes)
+        except Exception:
+            _PE[id(idx)] = set()
+    return _PE[id(idx)]
 
 
 def fmt_outcome(o):
